@@ -66,6 +66,8 @@ Proof. exact verdicts_spec. Qed.
 
 Definition hB : header := {| h_id := 0; h_kind := KMod; h_name := [109]; h_revs := [[50;48;50;48;45;48;49;45;48;49]] |}%N.
 Definition hA : header := {| h_id := 1; h_kind := KMod; h_name := [109]; h_revs := [] |}%N.
+Definition hC : header := {| h_id := 2; h_kind := KMod; h_name := [109];
+                             h_revs := [[50;48;49;57]; [50;48;50;49]; [50;48;50;48]] |}%N.
 
 (* D30 at the pinned commit ([add_old]): module m revision 2020-01-01, then module m without
    revision: the second was rejected *)
@@ -99,6 +101,32 @@ Proof.
   - unfold distinct_keys. vm_compute. repeat constructor; simpl; intuition discriminate.
   - repeat split; reflexivity.
 Qed.
+
+(* ---- texts holding several modules: Modules.Parse is all or nothing ---- *)
+
+(* atomicity: a rejected text leaves the module set exactly as it was *)
+Theorem C13_parse_text_atomic : forall st hs, snd (parse_text st hs) = false -> fst (parse_text st hs) = st.
+Proof. exact parse_text_atomic. Qed.
+
+(* an accepted text is the same as adding its statements one after the other, all of them accepted *)
+Theorem C13_parse_text_accepted : forall st hs, snd (parse_text st hs) = true ->
+  fst (parse_text st hs) = fst (run_with add st hs) /\
+  forallb (fun b => b) (snd (run_with add st hs)) = true.
+Proof. exact parse_text_accepted. Qed.
+
+(* every load history made of texts: a text is accepted iff each of its headers is new with
+   respect to the ACCEPTED texts before it and to the headers before it in the same text; the
+   lookups afterwards are those of the accepted headers loaded one by one *)
+Theorem C13_parse_texts : forall texts k n rev,
+  names_ok (concat texts) = true -> at_free n = true ->
+  snd (parse_texts NewModules texts) = spec_texts [] texts /\
+  Registry.find (fst (parse_texts NewModules texts)) k n rev = spec_find (accepted_headers [] texts) k n rev.
+Proof. exact parse_texts_find. Qed.
+
+Example C13_parse_text_ex :
+  snd (parse_texts NewModules [[hB]; [hC; hB]; [hC; hA]; [hA; hA]; [hA]]) = [true; false; true; false; false] /\
+  option_map h_id (Registry.find (fst (parse_texts NewModules [[hB]; [hC; hB]])) KMod [109]%N None) = Some 0%N.
+Proof. vm_compute. split; reflexivity. Qed.
 
 (* ================================ (b) file chooser =================================== *)
 
@@ -171,6 +199,25 @@ Theorem C13_findInDir_none : forall name d,
   findInDir (name ++ DOT_YANG) true d = None <-> any_offer name d = false.
 Proof. exact findInDir_none. Qed.
 
+(* findInDir on a "dir/..." element for EVERY tree, nested offers included (the behaviour behind
+   the known finding findfile.dots-subdir-first, described exactly): entries in name order, the
+   first that is name.yang or a subdirectory with any offer below it decides; else the latest own
+   dated file *)
+Theorem C13_findInDir_recursive_exact : forall name d,
+  findInDir (name ++ DOT_YANG) true d = chosen name d.
+Proof. exact findInDir_recursive_exact. Qed.
+
+(* findFile for every search path without any hypothesis on the trees *)
+Theorem C13_findfile_exact : forall cwd path name,
+  has_slash name = false -> has_suffix name DOT_YANG = false ->
+  findFile cwd path name = to_outcome (exact_findFile cwd path name).
+Proof. exact findFile_exact. Qed.
+
+(* and it is the depth-first offer exactly when no offering directory has an offering descendant *)
+Theorem C13_chosen_is_first_offer : forall name d, nested_offers name d = false ->
+  chosen name d = first_offer name (expand d).
+Proof. exact chosen_is_first_offer. Qed.
+
 Definition s_foo : str := [102;111;111]%N.
 Definition s_2020 : str := s_foo ++ [64;50;48;50;48;45;48;49;45;48;49]%N ++ DOT_YANG.
 Definition s_2019 : str := s_foo ++ [64;50;48;49;57;45;48;49;45;48;49]%N ++ DOT_YANG.
@@ -188,8 +235,6 @@ Qed.
 
 (* ==================================== non-vacuity ==================================== *)
 
-Definition hC : header := {| h_id := 2; h_kind := KMod; h_name := [109];
-                             h_revs := [[50;48;49;57]; [50;48;50;49]; [50;48;50;48]] |}%N.
 
 Example C13_lookup_ex :
   option_map h_id (Registry.find (final [hB; hC; hA]) KMod [109]%N None) = Some 2%N /\
@@ -315,3 +360,102 @@ Example C13_include_ex_values :
 Proof. vm_compute. repeat split; reflexivity. Qed.
 
 End PartC.
+
+(* ===================== (c) nested includes: any acyclic include graph ================== *)
+(* [nested_family SC m subs rank]: subs = the submodules reachable from m (depth first, each once);
+   every include of every part names one of them; all belong to m and share its prefix; includes go
+   strictly down the [rank] (no cycles); top-level grouping names are distinct across the family;
+   every uses name is local and, if it names a top-level grouping of the family, names one that
+   the using part declares or reaches through its own includes. *)
+From GY Require Proofs.IncludeNestedProofs.
+
+Section PartCNested.
+Import Schema IncludeProofs IncludeNestedProofs.
+
+(* module_dir with its mergedSubmodule bookkeeping merges every reachable submodule exactly once,
+   in depth-first include order, whatever the (acyclic) include graph looks like *)
+Theorem C13_include_nested_merge_once : forall SC ic m subs rank, nested_family SC m subs rank ->
+  fst (module_dir SC ic (S (length SC)) [] m) = fold_left (merge_part SC) subs (own_dir SC m).
+Proof. exact nested_HS. Qed.
+
+Theorem C13_include_nested_module_entry : forall SC ic m subs rank, nested_family SC m subs rank ->
+  fst (module_entry (unsplit_schema SC m) ic (unsplit SC m)) = fst (module_entry SC ic m) /\
+  snd (module_entry (unsplit_schema SC m) ic (unsplit SC m)) =
+    snd (module_entry SC ic m) || existsb devs_err (reachable_subs SC m).
+Proof. exact nested_module_entry. Qed.
+
+Theorem C13_include_nested_grouping_lookup : forall SC m subs rank, nested_family SC m subs rank ->
+  forall X inner u,
+  In X (m :: subs) -> Forall (fun sc => okb (uses_ok_n SC m subs X) sc = true) inner ->
+  uses_ok_n SC m subs X u = true ->
+  match FindGrouping SC {| g_mod := X; g_scopes := inner ++ [m_body X] |} u,
+        FindGrouping (unsplit_schema SC m)
+                     {| g_mod := unsplit SC m; g_scopes := inner ++ [m_body (unsplit SC m)] |} u with
+  | None, None => True
+  | Some (gid, gb, _), Some (gid', gb', _) => gid = gid' /\ gb = gb'
+  | _, _ => False
+  end.
+Proof. exact nested_uses_lookup. Qed.
+
+Theorem C13_include_nested_augments : forall SC m subs rank, nested_family SC m subs rank ->
+  map (fun a => (a_path a, a_dir a, a_err a)) (module_augs (unsplit_schema SC m) (unsplit SC m)) =
+  flat_map (fun X => map (fun a => (a_path a, a_dir a, a_err a)) (module_augs SC X)) (m :: subs).
+Proof. exact nested_module_augs. Qed.
+
+Theorem C13_include_nested_shape : forall SC m subs rank, nested_family SC m subs rank ->
+  find_module (unsplit_schema SC m) (m_name m) = Some (unsplit SC m) /\
+  m_includes (unsplit SC m) = [] /\
+  map m_name (unsplit_schema SC m) = map m_name SC.
+Proof. exact nested_shape. Qed.
+
+(* non-vacuity: m includes n1 and n2, n1 includes n2 (a diamond); m uses g2 of n2, n1's grouping g1
+   uses g2 as well *)
+Definition n_m : module :=
+  {| m_name := c_str [109]; m_prefix := c_str [112]; m_ns := c_str [117]; m_belongs := None;
+     m_imports := []; m_includes := [c_str [110;49]; c_str [110;50]];
+     m_body := [DUses (c_str [103;50]); DContainer (c_str [99]) TSUnset [c_leaf [97]; DUses (c_str [112;58;103;49])]];
+     m_augments := []; m_deviations := [] |}.
+Definition n_1 : module :=
+  {| m_name := c_str [110;49]; m_prefix := c_str [112]; m_ns := []; m_belongs := Some (c_str [109]);
+     m_imports := []; m_includes := [c_str [110;50]];
+     m_body := [DGrouping 2 (c_str [103;49]) [c_leaf [121]; DUses (c_str [103;50])]; c_leaf [108;49]];
+     m_augments := [(c_str [47;99], [DUses (c_str [103;50])])]; m_deviations := [] |}.
+Definition n_2 : module :=
+  {| m_name := c_str [110;50]; m_prefix := c_str [112]; m_ns := []; m_belongs := Some (c_str [109]);
+     m_imports := []; m_includes := [];
+     m_body := [DGrouping 4 (c_str [103;50]) [c_leaf [119]]; c_leaf [108;50]];
+     m_augments := []; m_deviations := [] |}.
+Definition n_SC : schema := [n_2; n_m; n_1].
+Definition n_rank (x : module) : nat := length (m_includes x).
+
+Example C13_include_nested_ex : nested_family n_SC n_m [n_1; n_2] n_rank.
+Proof.
+  constructor.
+  - vm_compute; repeat constructor; simpl; intuition discriminate.
+  - right. left. reflexivity.
+  - vm_compute; repeat constructor; simpl; intuition discriminate.
+  - constructor; [|constructor; [|constructor]]; (split; [simpl; intuition|repeat split]).
+  - intros X sn HX Hsn. simpl in HX. destruct HX as [<-|[<-|[<-|[]]]]; simpl in Hsn;
+      repeat (destruct Hsn as [<-|Hsn];
+              [first [exists n_1; split; [simpl; auto|reflexivity]|exists n_2; split; [simpl; auto|reflexivity]]|]);
+      destruct Hsn.
+  - intros X HX. simpl in HX. destruct HX as [<-|[<-|[<-|[]]]]; vm_compute; repeat constructor.
+  - intros X s HX Hs Hin. simpl in HX, Hs.
+    destruct HX as [<-|[<-|[<-|[]]]]; destruct Hs as [<-|[<-|[]]]; vm_compute in Hin |- *;
+      try (repeat constructor); exfalso; intuition discriminate.
+  - reflexivity.
+  - repeat constructor.
+  - intros Y Z u HY HZ FY FZ. simpl in HY, HZ.
+    destruct HY as [<-|[<-|[<-|[]]]]; destruct HZ as [<-|[<-|[<-|[]]]]; try reflexivity; exfalso;
+      apply find_in_mem in FY; apply find_in_mem in FZ; apply mem_in in FY; apply mem_in in FZ;
+      vm_compute in FY, FZ; intuition congruence.
+  - repeat constructor.
+Qed.
+
+Example C13_include_nested_ex_values :
+  module_entry (unsplit_schema n_SC n_m) false (unsplit n_SC n_m) = module_entry n_SC false n_m /\
+  snd (module_entry n_SC false n_m) = false /\
+  map m_name (reachable_subs n_SC n_m) = [c_str [110;49]; c_str [110;50]].
+Proof. vm_compute. repeat split; reflexivity. Qed.
+
+End PartCNested.
